@@ -250,6 +250,22 @@ TEMPLATES = {
     "intOverflowShift": [("func", ["int $Ff(void) {", "int $x = 1;", "return $x << 40;", "}"])],
     "doubleFree": [("func", ["void $Ff(void) {", "char *$p = malloc(4);", "free($p);", "free($p);", "}"])],
     "useAfterFree": [("func", ["char $Ff(void) {", "char *$p = malloc(4);", "free($p);", "return *$p;", "}"])],
+    "calleeRet": [("func", ["static int $Fg(void) {", "return 0;", "}"]), ("func", ["int $Ff(int $x) {", "return $x / $Fg();", "}"])],
+    "chain3": [("func", ["static int $Fh(int *$q) {", "return *$q;", "}"]), ("func", ["static int $Fg(int *$r) {", "return $Fh($r);", "}"]),
+               ("func", ["int $Ff(void) {", "return $Fg(0);", "}"])],
+    "recursion": [("func", ["int $Ff(int $n) {", "if ($n <= 0) {", "return 0;", "}", "return $n + $Ff($n - 1);", "}"])],
+    "danglingLocal": [("func", ["int *$Ff(void) {", "int $x = 0;", "return &$x;", "}"])],
+    "printfArg": [("func", ["void $Ff(int $n) {", "printf(\"%s\", $n);", "}"])],
+    "ignoredReturn": [("func", ["void $Ff(const char *$s) {", "strlen($s);", "}"])],
+    "uninitdata": [("func", ["char $Ff(void) {", "char *$p = malloc(4);", "char $c = $p[0];", "free($p);", "return $c;", "}"])],
+    "enumSwitch": [("struct", ["enum $E {", "$A,", "$B", "};"]),
+                   ("func", ["int $Ff(enum $E $e) {", "switch ($e) {", "case $A:", "return 1;", "case $B:", "break;", "}", "return 0;", "}"])],
+    "typedefStruct": [("struct", ["struct $S {", "int $a;", "char *$p;", "};"]), ("struct", ["typedef struct $S $T;"]),
+                      ("func", ["int $Ff($T *$s) {", "$s->$p = 0;", "return *$s->$p + $s->$a;", "}"])],
+    "globalVar": [("struct", ["static int $G = 0;"]), ("func", ["int $Ff(void) {", "if ($G == 0) {", "return 10 / $G;", "}", "return 1;", "}"])],
+    "labelGoto": [("func", ["int $Ff(int $n) {", "if ($n) {", "goto $L;", "}", "$n = 1;", "$L:", "return $n;", "}"])],
+    "condAssign": [("func", ["int $Ff(int $a, int $b) {", "if ($a = $b) {", "return 1;", "}", "return 0;", "}"])],
+    "signConv": [("func", ["unsigned $Ff(void) {", "int $x = -1;", "unsigned $u = $x;", "return $u * 2;", "}"])],
     "globalUse": [("func", ["int $Ff(void) {", "static int $c = 0;", "$c++;", "return $c;", "}"])],
 }
 
@@ -544,6 +560,51 @@ def compare_pair(ctx, rw, fresh=False):
     missing = list((ce - cg).elements())      # expected from the original, absent in the rewrite
     extra = list((cg - ce).elements())
     return (not missing and not extra and not unm), dict(missing=missing, extra=extra, unmappable=unm, n0=len(f0), n1=len(f1), ids0=sorted(set(f["id"] for f in f0)))
+
+
+
+# ---- lexer tie: generated sources ------------------------------------------------------------------------------------
+LEX_NAMES = ["x", "foo", "a1", "_b", "$c", "int", "return", "u", "L", "u8", "U", "R", "LR", "e5", "f", "l", "and", "bitor", "p", "E", "x_y", "abc123"]
+LEX_NUMS = ["0", "1", "42", "007", "08", "0x1F", "0xe", "0XAP", "0x1p", "1e", "1E", "2e5", "10UL", "1f", "3p", "1_000", "00", "0e", "1'000", "0b1'01", "12'", "9'a"]
+LEX_OPS = list("+-*/%&|^~!<>=?:;,.()[]{}@`") + ["#", "\\"]
+LEX_LITS = ['"s"', '""', '"a b"', r'"q\"q"', r'"b\\"', r'"b\\\""', "'c'", r"'\''", r"'\\'", "'ab'", '"/*"', '"//"', "'\"'", '"\'"', '"é"', '"tab\there"']
+LEX_GAPS = ["", "", "", " ", " ", "  ", "\t", "\n", "\n", "\r\n", "\r", " \n ", "\n\n", "/**/", "/* c */", "/*\n*/", "/* a\n b */ ", "// c\n", "//\n", " // x y\n  ",
+            "/*/ */", "/***/", "/* * / */", "//*\n", "\v", "\f"]
+LEX_GLUED = ["1.5", "1.", ".5", "1.5e+3", "1e+5", "1.e-5", "1.5f", "1.f", ".5e+3", "0x1.8p-3", "0x1p+2", "1..2", "1.2.3", "00.5e+3", "1e+", "1e+x", "a+++b", "a---b", "1--2",
+             "x++", "--y", "a->b", "a::b", "a<<=b", "a>>=b", "a>>==b", "a<<b", "a<=b", "a>=b", "a==b", "a!=b", "a&&b", "a||b", "a+=1", "a-=1", "a*=b", "a/=b", "a%=b",
+             "a&=b", "a|=b", "a^=b", "f(int&=2)", "void f(T&=2)", "...", "....", ". . .", "a...b", "x=-1", "x=+1", "p=&q", "*p", "a<:b", "1.5l", "1.5L", "3.and 4",
+             "2.e", "x.y", "x . y", "s.5", "1 .5", "1. 5", "1 . 5", "1e +5", "1e+ 5", "a > > = b", "a>> =b", "1 ++x", "x++ 1", "{a&=b;}", "f(a)&=b", "g(int*&=0)"]
+
+
+def gen_lex_source(rng, wild=False):
+    n = rng.choice([1, 2, 3, 5, 8, 12, 20])
+    parts = []
+    for _ in range(n):
+        r = rng.random()
+        if wild and r < 0.25:
+            parts.append("".join(rng.choice("ab1._'\"/*+-<>=&|:. \n\\#e\tx()") for _ in range(rng.choice([1, 2, 3, 5, 9]))))
+        elif r < 0.25:
+            parts.append(rng.choice(LEX_NAMES))
+        elif r < 0.4:
+            parts.append(rng.choice(LEX_NUMS))
+        elif r < 0.6:
+            parts.append(rng.choice(LEX_OPS[:-2]) if rng.random() < 0.97 else rng.choice(LEX_OPS))
+        elif r < 0.72:
+            parts.append(rng.choice(LEX_LITS))
+        else:
+            parts.append(rng.choice(LEX_GLUED))
+        parts.append(rng.choice(LEX_GAPS))
+    s = "".join(parts)
+    if rng.random() < 0.15:
+        s = s.rstrip("\n")
+    if rng.random() < 0.02:
+        s = "\xef\xbb\xbf" + s
+    return s
+
+
+def lex_nontrivial(src, out):
+    toks = out.split()[1:]
+    return len(toks) >= 3 and ("/*" in src or "//" in src or '"' in src or any(len(core.unhx(t.split(":")[0])) > 1 and t.split(":")[3][:2] == "00" for t in toks))
 
 
 def run(ctx, res):
